@@ -53,12 +53,12 @@ Lemma N_of_bits_acc_byte v b : b < 256 -> N_of_bits_acc v (bits_of_N 8 b) = v * 
 Proof. intros H. rewrite N_of_bits_acc_shift. rewrite bits_of_N_length. change (2 ^ N.of_nat 8) with 256. f_equal. apply (N_of_bits_of_N 8 b H). Qed.
 
 Lemma gbv_loop_spec : forall mid pre post v,
-  bok mid -> v * 256 ^ N.of_nat (length mid) < TWO64 ->
+  bok mid -> (v + 1) * 256 ^ N.of_nat (length mid) <= TWO64 ->
   gbv_loop (length mid) (len pre) (pre ++ mid ++ post) v = Ok (N_of_bits_acc v (bits_of_bytes mid)).
 Proof.
   induction mid as [|b mid IH]; intros pre post v Hb Hv; [reflexivity|].
   apply bok_cons in Hb. destruct Hb as [Hb Hm]. cbn [length gbv_loop app].
-  rewrite idx_mid. cbn [bind]. rewrite pow256_succ in Hv.
+  rewrite idx_mid. cbn [bind]. cbn [length] in Hv. rewrite pow256_succ in Hv.
   assert (Hp : 1 <= 256 ^ N.of_nat (length mid)) by (apply N.lt_pred_le; apply N.neq_0_lt_0; apply N.pow_nonzero; lia).
   assert (Hsh : N.lor (shl64 v 8) b = v * 256 + b).
   { unfold shl64. cbn [N.ltb N.compare Pos.compare Pos.compare_cont]. rewrite N.shiftl_mul_pow2. change (2 ^ 8) with 256.
@@ -89,9 +89,10 @@ Proof.
   set (mid := firstn q d). set (post := skipn q d).
   assert (Hsplit : d = [] ++ mid ++ post) by (cbn [app]; unfold mid, post; symmetry; apply firstn_skipn).
   assert (Hml : length mid = q) by (unfold mid; apply firstn_length_le; exact Hq).
-  rewrite Hsplit at 1. change 0 with (len (@nil N)). rewrite <- Hml at 1.
-  rewrite gbv_loop_spec; [|apply bok_firstn; exact Hd|].
-  2:{ rewrite N.mul_0_l. unfold TWO64. lia. }
+  assert (Hg : gbv_loop (N.to_nat (n / 8)) 0 d 0 = Ok (N_of_bits_acc 0 (bits_of_bytes mid))).
+  { fold q. rewrite <- Hml. rewrite Hsplit at 1. apply (gbv_loop_spec mid [] post 0); [apply bok_firstn; exact Hd|].
+    rewrite N.add_0_l, N.mul_1_l. change TWO64 with (256 ^ 8). apply N.pow_le_mono_r; [lia|]. rewrite Hml. unfold q. lia. }
+  fold q in Hg. rewrite Hg.
   cbn [bind]. rewrite N_of_bits_acc_0. rewrite land7.
   assert (Hmb : bits_of_bytes mid = firstn (8 * q) c).
   { unfold mid. rewrite bits_of_bytes_firstn, Hdb. rewrite firstn_app_l by (unfold q; lia). reflexivity. }
@@ -113,7 +114,8 @@ Proof.
       rewrite bits_of_bytes_cons, bits_of_bytes_nil, app_nil_r in Hpb. rewrite Hpb.
       rewrite skipn_app_l by (unfold q; lia). rewrite firstn_app_l by (rewrite skipn_length; unfold r, q; lia).
       rewrite firstn_all2 by (rewrite skipn_length; unfold r, q; lia). reflexivity. }
-    rewrite Hcsplit at 2. rewrite N_of_bits_app. rewrite firstn_length_le by (rewrite bits_of_N_length; unfold r; lia).
+    replace (N_of_bits c) with (N_of_bits (firstn (8 * q) c ++ firstn r (bits_of_N 8 lastb))) by (rewrite <- Hcsplit; reflexivity).
+    rewrite N_of_bits_app. rewrite firstn_length_le by (rewrite bits_of_N_length; unfold r; lia).
     replace (N.to_nat (n mod 8)) with r by (unfold r; lia).
     set (hi := N_of_bits (firstn (8 * q) c)). set (lo := N_of_bits (firstn r (bits_of_N 8 lastb))).
     assert (Hlo : lo < 2 ^ N.of_nat r).
@@ -127,4 +129,77 @@ Proof.
     { assert (hi * 2 ^ N.of_nat r < 2 ^ N.of_nat (8 * q) * 2 ^ N.of_nat r) by (apply N.mul_lt_mono_pos_r; [apply N.neq_0_lt_0; apply N.pow_nonzero; lia|exact Hhi]).
       rewrite <- N.pow_add_r in H. eapply N.lt_le_trans; [exact H|]. change TWO64 with (2 ^ 64). apply N.pow_le_mono_r; [lia|]. unfold q, r. lia. }
     rewrite N.mod_small by exact Hbound. apply lor_disjoint. exact Hlo.
+Qed.
+
+(* ---------------------------------------------------------------- the cursor *)
+Lemma src_bits bs pos :
+  skipn (pos mod 8) (bits_of_bytes (skipn (pos / 8) bs)) = skipn pos (bits_of_bytes bs).
+Proof. rewrite bits_of_bytes_skipn, skipn_skipn. f_equal. lia. Qed.
+
+Lemma slice_from_ok (l : list N) k : (k <= length l)%nat -> slice_from l (N.of_nat k) = Ok (skipn k l).
+Proof. intros H. unfold slice_from. assert (N.of_nat k <=? len l = true) as -> by (unfold len; lia). rewrite Nat2N.id. reflexivity. Qed.
+
+Lemma carry_at bs pos n : N.of_nat pos + n < TWO64 ->
+  at_pos (bitCarry (mkdst bs (N.of_nat (pos / 8)) (u64 (N.of_nat (pos mod 8) + n)))) bs (pos + N.to_nat n).
+Proof.
+  intros H. unfold at_pos, bitCarry. cbn [d_bytes d_byteOffset d_bitsOffset].
+  rewrite (u64_small (N.of_nat (pos mod 8) + n)) by (unfold TWO64 in *; lia). rewrite shiftr3, land7.
+  rewrite u64_small by (unfold TWO64 in *; lia). split; [reflexivity|]. split; lia.
+Qed.
+
+Theorem getBitsValue_at d bs pos n :
+  at_pos d bs pos -> buf bs -> 1 <= n <= 64 -> (pos + N.to_nat n <= 8 * length bs)%nat ->
+  exists d', getBitsValue d n = (Ok (N_of_bits (firstn (N.to_nat n) (skipn pos (bits_of_bytes bs)))), d')
+             /\ at_pos d' bs (pos + N.to_nat n).
+Proof.
+  intros (H1 & H2 & H3) [Hb Hl] Hn Hfit. unfold getBitsValue. rewrite H1, H2, H3.
+  unfold LIM, len in Hl.
+  rewrite slice_from_ok by lia.
+  rewrite GetBitsValue_bits; try lia.
+  - eexists. split.
+    + rewrite Nat2N.id, src_bits. reflexivity.
+    + apply carry_at. unfold TWO64. lia.
+  - apply bok_skipn. exact Hb.
+  - unfold len. rewrite skipn_length. lia.
+  - unfold len. rewrite skipn_length. lia.
+Qed.
+
+Theorem getBitString_at d bs pos n :
+  at_pos d bs pos -> buf bs -> 1 <= n -> (pos + N.to_nat n <= 8 * length bs)%nat ->
+  exists r d', getBitString d n = (Ok r, d') /\ at_pos d' bs (pos + N.to_nat n) /\ bok r /\ len r = (n + 7) / 8 /\
+    bits_of_bytes r = firstn (N.to_nat n) (skipn pos (bits_of_bytes bs)) ++ repeat false (pad_len (N.to_nat n)).
+Proof.
+  intros (H1 & H2 & H3) [Hb Hl] Hn Hfit. unfold getBitString. rewrite H1, H2, H3.
+  unfold LIM, len in Hl.
+  rewrite slice_from_ok by lia.
+  destruct (GetBitString_bits (skipn (pos / 8) bs) (N.of_nat (pos mod 8)) n) as (r & Er & Hr & Hrl & Hrb); try lia.
+  - apply bok_skipn. exact Hb.
+  - unfold len. rewrite skipn_length. lia.
+  - unfold len. rewrite skipn_length. lia.
+  - rewrite Er. exists r. eexists. split; [reflexivity|]. split; [apply carry_at; unfold TWO64; lia|].
+    split; [exact Hr|]. split; [exact Hrl|]. rewrite Hrb, Nat2N.id, src_bits. reflexivity.
+Qed.
+
+Lemma N_of_bits_zeros k : N_of_bits (repeat false k) = 0.
+Proof. induction k as [|k IH]; [reflexivity|]. cbn [repeat]. rewrite N_of_bits_cons, IH. lia. Qed.
+
+Theorem parseAlignBits_at d bs pos :
+  at_pos d bs pos -> buf bs -> (pos + pad_len pos <= 8 * length bs)%nat ->
+  firstn (pad_len pos) (skipn pos (bits_of_bytes bs)) = repeat false (pad_len pos) ->
+  exists d', parseAlignBits d = (Ok tt, d') /\ at_pos d' bs (pos + pad_len pos).
+Proof.
+  intros Hd Hb Hfit Hz. pose proof Hd as (H1 & H2 & H3). unfold parseAlignBits. rewrite H3, land7.
+  destruct (0 <? N.of_nat (pos mod 8) mod 8) eqn:E.
+  - assert (Hpl : N.to_nat (8 - N.of_nat (pos mod 8) mod 8) = pad_len pos) by (unfold pad_len; lia).
+    destruct (getBitsValue_at d bs pos (8 - N.of_nat (pos mod 8) mod 8) Hd Hb ltac:(lia) ltac:(lia)) as (d' & Eg & Hd').
+    rewrite Eg. cbn [sbind]. rewrite Hpl in *. rewrite Hz, N_of_bits_zeros. cbn [N.eqb]. eauto.
+  - assert (pos mod 8 = 0)%nat by lia. assert (negb (N.of_nat (pos mod 8) =? 0) = false) as -> by lia.
+    exists d. split; [reflexivity|]. rewrite pad_len_0 by assumption. rewrite Nat.add_0_r. exact Hd.
+Qed.
+
+(* the bits at the cursor, when the buffer is known to continue with [b] there *)
+Lemma firstn_at (B pre b post : bits) : B = pre ++ b ++ post -> firstn (length b) (skipn (length pre) B) = b.
+Proof.
+  intros ->. rewrite skipn_app_r by lia. replace (length pre - length pre)%nat with O by lia. rewrite skipn_O.
+  rewrite firstn_app_l by lia. apply firstn_all.
 Qed.
